@@ -535,14 +535,14 @@ class AxlPartner:
         if self.awq and self.wq and rng.random() < self.p_exec:
             a, (data, strb) = self.awq.pop(0), self.wq.pop(0)
             if rng.random() < self.p_err:
-                self.bq.append(2)
+                self.bq.append(rng.choice((2, 3)))
             else:
                 self.mem.write_word((a // self.nb) * self.nb, self.nb, strb, data)
                 self.bq.append(0)
         if self.arq and rng.random() < self.p_exec and not (self.ordered and (self.awq or self.wq)):
             a = self.arq.pop(0)
             if rng.random() < self.p_err:
-                self.rq.append((2, rng.getrandbits(8 * self.nb)))
+                self.rq.append((rng.choice((2, 3)), rng.getrandbits(8 * self.nb)))
             else:
                 self.rq.append((0, self.mem.read_word((a // self.nb) * self.nb, self.nb)))
         if req["awvalid"] and drv["awready"]:
@@ -1157,6 +1157,7 @@ class BridgeMonitor:
         self.dead = False
         self.errs = errs
         self.err_acc = {"w": False, "r": False}
+        self.err_first = {"w": 0, "r": 0}     # first non-OKAY slave-side response of the transaction under way
         self.b_order = b_order          # a write response stands for completed slave-side writes (1:1 bridges)
         self.s_wr_done = 0
         self.fair = fair                # read/write alternation (bridges that serve both directions with one engine)
@@ -1240,6 +1241,8 @@ class BridgeMonitor:
             for ev in self.s_or.events[n_before:]:
                 if ev[4] != 0:
                     self.err_acc[ev[0]] = True
+                    if self.err_first[ev[0]] == 0:
+                        self.err_first[ev[0]] = ev[4]
                 if ev[0] == "w":
                     self.s_wr_done += 1
         # ---- property: flat byte memory, one response per request
@@ -1251,7 +1254,11 @@ class BridgeMonitor:
                 if (ev[4] != 0) != exp:
                     return "master side: %s response %d but the slave side %s an error" % (
                         "write" if ev[0] == "w" else "read", ev[4], "reported" if exp else "did not report")
+                if exp and self.m_kind == "axl" and self.s_kind == "axl" and ev[4] != self.err_first[ev[0]]:
+                    return "master side: %s response %d, the first error answered on the slave side was %d" % (
+                        "write" if ev[0] == "w" else "read", ev[4], self.err_first[ev[0]])
             self.err_acc[ev[0]] = False
+            self.err_first[ev[0]] = 0
             if ev[0] == "w" and s is not None:
                 need = ev[5] if len(ev) > 5 else 1
                 if self.b_order and self.s_wr_done < need:
